@@ -1,9 +1,9 @@
 #!/bin/sh
-# usage: tools/confirm_seed.sh <ID> <prop> [<prop>...]   (seed deliverables in /tmp/seed-<ID>/)
+# usage: [SEED_SRC=<dir>] tools/confirm_seed.sh <ID> <prop> [<prop>...]   (seed deliverables in $SEED_SRC, default /tmp/seed-<ID>/)
 # Confirms a seeded change here: applies to /repo, builds, runs the seed's own demo (must fail), the existing test
 # suite (must still pass), our checks; then reverts, rebuilds and runs the demo again (must pass).
 id="$1"; shift
-S=/tmp/seed-$id; OUT=/verif/seeded/$id
+S=${SEED_SRC:-/tmp/seed-$id}; OUT=/verif/seeded/$id
 mkdir -p "$OUT"; cp "$S/patch.diff" "$S/demo.sh" "$OUT/" 2>/dev/null; [ -f "$S/NOTES.md" ] && cp "$S/NOTES.md" "$OUT/NOTES.md"
 git -C /repo diff --quiet || { echo "/repo not clean"; exit 2; }
 git -C /repo apply --check "$OUT/patch.diff" 2>/dev/null || { echo "PATCH-DOES-NOT-APPLY (3-way...)"; git -C /repo apply -3 "$OUT/patch.diff" || exit 2; git -C /repo reset -q; }
